@@ -164,6 +164,8 @@ def run(rep, tier, seed, replay_file=None):
             ("Terms_d1x.cfg", "all terms of depth 1, arity <= 3, leaves {s1,t1} + nil + nil *Stack + 5 holey composites; "
                               "each also with the repeated observation schedule", dict(workers=2)),
             ("Terms_d2q.cfg" if quick else "Terms_d2.cfg", "all terms of depth 2, arity <= 2, leaves {s1,t1} + nil", dict(workers=2))]
+    plan.append(("Terms_tail.cfg", "tail(x) = errors.Unwrap of a 2..3-element *ers.Stack value (interior node, cached count 0) as the result, "
+                                   "below Wrap / ParsePanic / fmt.Errorf(%w), and as first / last / only operand of every n-ary aggregator", dict(workers=2)))
     if not quick:
         plan.append(("Terms_d2x.cfg", "all terms of depth 2, arity <= 2 over {s1, nil, nil *Stack, 2 holey composites}", dict(workers=3)))
     sims = [(12, 1500 if quick else 12000), (24, 300 if quick else 6000)]
